@@ -33,7 +33,7 @@ def universe(tier, seed):
     # break / continue in the handlers, the else clause and the finally clause of a try statement inside a loop
     feature += [b for b in S.enumerate_methods(6, 3, {"s", "while", "try", "break", "continue"})
                 if {"try", "while"} <= S.features(b) and ({"break", "continue"} & S.features(b)) and S.size_of_body(b) <= 6 and len(b) == 1 and b[0][0] == "while"]
-    small = small + feature
+    small = small + feature + S.goto_shapes()
     out = []
     for r in S.RENDERERS:
         a = [b for b in small if S.supported(r, b)]
